@@ -145,6 +145,179 @@ func (e *Engine) NonNegLin(l Lin) bool {
 // ProveGE0 decides d >= 0 with the prefix-sum lemma: for a non-negative per-element term Δ,
 // Σ_{j<i} Δ[j] <= Σ_{j<n} Δ[j] while the loop index i of a loop with trip count n is in range.
 func (e *Engine) ProveGE0(d Lin) (bool, string) {
+	return e.proveGE0(d, 0)
+}
+
+// classes of an integer field: the constants it is compared with (==, !=) inside l, plus one other value.
+func fieldClasses(l Lin) (key string, atom FieldVal, vals []int64) {
+	consts := map[int64]bool{}
+	l.mapAtoms(func(a Atom) Lin {
+		if it, ok := a.(Ite); ok && (it.Op == "==" || it.Op == "!=") && it.Y.IsConst() && it.X.C == 0 && len(it.X.T) == 1 {
+			for k, t := range it.X.T {
+				if fv, isF := t.A.(FieldVal); isF && t.K == 1 && (key == "" || key == k) {
+					key, atom = k, fv
+					consts[it.Y.C] = true
+				}
+			}
+		}
+		return AtomLin(a)
+	})
+	if key == "" {
+		return
+	}
+	other := int64(0)
+	for consts[other] {
+		other++
+	}
+	for v := range consts {
+		vals = append(vals, v)
+	}
+	vals = append(vals, other)
+	return
+}
+
+// substField evaluates l with the integer at the given field atom fixed to v (folding the comparisons).
+func substField(l Lin, key string, v int64) Lin {
+	var rec func(l Lin) Lin
+	rec = func(l Lin) Lin {
+		r := Const(l.C)
+		for _, k := range l.sorted() {
+			t := l.T[k]
+			var repl Lin
+			switch x := t.A.(type) {
+			case FieldVal:
+				if k == key {
+					repl = Const(v)
+				} else {
+					repl = AtomLin(x)
+				}
+			case Ite:
+				cx, cy := rec(x.X), rec(x.Y)
+				if cx.IsConst() && cy.IsConst() {
+					var c bool
+					switch x.Op {
+					case "==":
+						c = cx.C == cy.C
+					case "!=":
+						c = cx.C != cy.C
+					case "<":
+						c = cx.C < cy.C
+					case "<=":
+						c = cx.C <= cy.C
+					case ">":
+						c = cx.C > cy.C
+					case ">=":
+						c = cx.C >= cy.C
+					}
+					if c {
+						repl = rec(x.Then)
+					} else {
+						repl = rec(x.Else)
+					}
+				} else {
+					repl = AtomLin(Ite{x.Op, cx, cy, rec(x.Then), rec(x.Else)})
+				}
+			case Op:
+				args := make([]Lin, len(x.Args))
+				for i, a := range x.Args {
+					args[i] = rec(a)
+				}
+				repl = AtomLin(Op{x.Name, args})
+			default:
+				repl = AtomLin(t.A)
+			}
+			r = r.Add(repl.Scale(t.K))
+		}
+		return r
+	}
+	return rec(l)
+}
+
+// pointwiseGE0: l >= 0 for every value of the one integer field its conditions test (case split over the
+// field's value classes), or by interval evaluation when it tests none.
+func (e *Engine) pointwiseGE0(l Lin) bool {
+	if e.NonNegLin(l) {
+		return true
+	}
+	key, _, vals := fieldClasses(l)
+	if key == "" {
+		return false
+	}
+	for _, v := range vals {
+		if !e.NonNegLin(substField(l, key, v)) {
+			return false
+		}
+	}
+	return true
+}
+
+func (e *Engine) proveGE0(d Lin, depth int) (bool, string) {
+	if depth > 6 {
+		return false, "case split too deep"
+	}
+	// a top-level if-then-else with a positive or negative coefficient: both cases
+	for _, k := range d.sorted() {
+		t := d.T[k]
+		it, isIte := t.A.(Ite)
+		if !isIte {
+			continue
+		}
+		rest := d.Sub(AtomLin(it).Scale(t.K))
+		okT, whyT := e.proveGE0(rest.Add(it.Then.Scale(t.K)), depth+1)
+		if !okT {
+			return false, whyT
+		}
+		return e.proveGE0(rest.Add(it.Else.Scale(t.K)), depth+1)
+	}
+	// c * (X / c) >= X - (c-1) for X >= 0, c > 0
+	for _, k := range d.sorted() {
+		t, ok := d.T[k]
+		if !ok || t.K <= 0 {
+			continue
+		}
+		op, isOp := t.A.(Op)
+		if !isOp || op.Name != "/" || len(op.Args) != 2 || !op.Args[1].IsConst() {
+			continue
+		}
+		c := op.Args[1].C
+		if c <= 0 || t.K%c != 0 || !e.NonNegLin(op.Args[0]) {
+			continue
+		}
+		m := t.K / c
+		d = d.Sub(AtomLin(op).Scale(t.K)).Add(op.Args[0].Scale(m)).Add(Const(-m * (c - 1)))
+	}
+	// prefix of a smaller term against the full sum of a larger one over the same list
+	for _, k := range d.sorted() {
+		t, ok := d.T[k]
+		if !ok || t.K >= 0 {
+			continue
+		}
+		pre, isPre := t.A.(Prefix)
+		if !isPre {
+			continue
+		}
+		li := e.loops[pre.ID]
+		if li == nil || !li.ok {
+			continue
+		}
+		for _, k2 := range d.sorted() {
+			s, ok := d.T[k2]
+			if !ok || s.K < -t.K {
+				continue
+			}
+			sm, isSum := s.A.(Sum)
+			if !isSum || sm.Count.Key() != li.count.Key() {
+				continue
+			}
+			body := renameID(sm.Body, sm.ID, pre.ID)
+			if !e.pointwiseGE0(pre.Body) || !e.pointwiseGE0(body.Sub(pre.Body)) {
+				continue
+			}
+			// d = d' + |K|*(sum(B) - prefix(A)), with sum(B) >= prefix(B) >= prefix(A) >= 0
+			d = d.Sub(AtomLin(pre).Scale(t.K)).Sub(AtomLin(sm).Scale(-t.K))
+			break
+		}
+	}
 	for _, k := range d.sorted() {
 		t, ok := d.T[k]
 		if !ok || t.K >= 0 {
